@@ -767,6 +767,19 @@ def _r5_location_independence(model: RepoModel, rep):
                     or any(isinstance(x, ast.Constant) and isinstance(x.value, str) and ("externs" in x.value or "lian_workspace" in x.value) for x in ast.walk(left)) \
                     or (isinstance(left, ast.Name) and "workspace" in left.id)
                 if not names_ws:
+                    # any constant substring searched in the ABSOLUTE path of a unit (the workspace copy): the directories above the
+                    # workspace are part of that string
+                    if isinstance(left, ast.Constant) and isinstance(left.value, str) and left.value and isinstance(right, (ast.Name, ast.Attribute)) \
+                            and norm(right).split(".")[-1] in ("unit_path", "file_path", "real_path", "abs_path"):
+                        n += 1
+                        key = f"{rel}::{f.qualname}::`{norm(c)[:90]}`"
+                        rep.violation("C14.R5", key, rel, c.lineno,
+                                      f"{f.qualname} classifies a unit by `{norm(c)[:90]}`, a substring test on the absolute path of the workspace copy: "
+                                      f"a workspace below a directory whose name contains {left.value!r} changes the classification of every unit")
+                    elif isinstance(left, ast.Constant) and isinstance(left.value, str) and isinstance(right, ast.Call) \
+                            and (call_name(right) or "").split(".")[-1] in ("relpath", "basename"):
+                        n += 1
+                        rep.holds("C14.R5", f"{rel}::{f.qualname}::`{norm(c)[:90]}`", rel, c.lineno, "substring searched in the project-relative part of the path only")
                     continue
                 n += 1
                 key = f"{rel}::{f.qualname}::`{norm(c)[:90]}`"
@@ -811,6 +824,9 @@ def _t(old, new):
 
 
 MUTANTS = [
+    ("template-test-on-absolute-path", "basics/basic_analysis.py",
+     lambda src: _t('if "{{" in os.path.relpath(unit_path, src_root):', 'if "{{" in unit_path:')(src),
+     "is_cookiecutter_file"),
     ("original-path-looked-up-as-typed", "preparation.py",
      lambda src: _t("self.dst_file_to_src_file.get(os.path.realpath(entry.path), \"\")", "self.dst_file_to_src_file.get(entry.path, \"\")")(src),
      "C14.R7"),
